@@ -540,3 +540,7 @@ META = dict(
     trusted_base=["np.savetxt/np.loadtxt '%.18e' round trip, json, the azimuth header regex (all exercised, not proved)", "the AST pattern matcher"],
     assumptions=["A-TEXT-ROUNDTRIP", "A-JSON", "A-RE"],
 )
+
+# the constructors of the result objects (contracts/ctor_hvsr.py): the reader rebuilds the objects through these constructors
+import contracts.ctor_hvsr as _CTOR
+TASKS += [t for t in _CTOR.TASKS if True]
